@@ -540,7 +540,8 @@ static void body_history_enter(int redirect_to = 0) {
 // the answers of rank()/utility() are drawn BEFORE the call so that the documented preconditions can be assumed up front
 static void predraw_answers() {
   for (int s = 1; s < VM_NS; ++s) {
-    g_rank_called[s] = true; g_rank_val[s] = nd_i8(); VASSUME(g_rank_val[s] >= -1 && g_rank_val[s] <= 1);      // ranks are signed: negative, zero and positive if (!VM_HAS_RANK(s)) g_rank_val[s] = 0;   // a state that does not override rank() has the default rank
+    g_rank_called[s] = true; g_rank_val[s] = nd_i8(); VASSUME(g_rank_val[s] >= -1 && g_rank_val[s] <= 1);      // ranks are signed: negative, zero and positive
+    if (!VM_HAS_RANK(s)) g_rank_val[s] = 0;                                                                       // a state that does not override rank() has the default rank
     g_util_called[s] = true; g_util_val[s] = nd_f32(); VASSUME(g_util_val[s] >= 0.0f && g_util_val[s] <= 1000.0f);
   }
 }
